@@ -109,20 +109,42 @@ theorem offset_is_confirmed_end (c : Cfg) (start : Nat) (tr : List L) :
   simp only [confEnd, hst] at this
   split at this <;> omega
 
+/-- the worker configuration of the code as it is now: where the state is sampled and where the final persist
+stands are regenerated from `/repo` -/
+def codeCfg (recsPerEvent : Nat) : Cfg :=
+  ⟨recsPerEvent, Generated.C17.stateSampledBeforeNextRecord, Generated.C17.finalPersistAfterWorkersWait⟩
+
 /-- what "a graceful stop and a restart neither re-send a confirmed byte nor skip one" needs from the final
-persist: it stores exactly the end of the confirmed bytes -/
+persist: whenever it can run, it stores exactly the end of the confirmed bytes -/
 def GracefulExact (c : Cfg) : Prop :=
   ∀ (start : Nat) (tr : List L) (s' : S),
-    step c (run c (init start) tr) .persist = some s' → s'.persisted = s'.start + bytesOf s'.confirmed
+    step c (run c (init start) tr) .finalPersist = some s' →
+      s'.persisted = s'.start + bytesOf s'.confirmed ∧ s'.confirmed <+: s'.readLog
 
-/-- the full statement of the graceful-stop clause (kept visible; it is **false**, see `cex_final_persist_race`) -/
-def C17_graceful_full : Prop := ∀ c : Cfg, GracefulExact c
+/-- **`graceful_restart_exact`** (the code as it is now, fix c6aad9a; every interleaving, no side condition): the
+final persist runs only after the worker has left its loop, hence after its last `setOffset`; it stores exactly
+the start plus all confirmed bytes, and the confirmed records are a prefix of what was read. The next session's
+`SetStreamPos(persisted)` continues with the first unconfirmed byte (`lines_concat` from there): nothing
+confirmed is re-sent, nothing skipped. -/
+theorem graceful_restart_exact (k : Nat) : GracefulExact (codeCfg k) := by
+  intro start tr s' hp
+  have hfact : Generated.C17.finalPersistAfterWorkersWait = true := by decide
+  have hcfg : (codeCfg k).finalAfterWorkers = true := hfact
+  have h : WInv (run (codeCfg k) (init start) tr) := winv_run _ tr (init start) (winv_init start)
+  simp only [step, hcfg, Bool.not_true, Bool.false_or] at hp
+  split at hp
+  · rename_i hcond
+    simp only [Bool.and_eq_true, beq_iff_eq] at hcond
+    simp only [Option.some.injEq] at hp
+    subst hp
+    have := h.offEq
+    simp only [hcond.2, isSetting, confEnd] at this
+    exact ⟨by simpa using this, h.pre⟩
+  · cases hp
 
-/-- **`graceful_restart_exact_partial`** If the (final) persist does not fall between a confirm rendez-vous and
-its `setOffset` — "the final persist runs after the last `setOffset`" —, the persisted offset is exactly the
-start plus all confirmed bytes; the next session's `SetStreamPos(persisted)` then continues with the first
-unconfirmed byte (`lines_concat` from there): nothing confirmed is re-sent, nothing skipped. -/
-theorem graceful_restart_exact_partial (c : Cfg) (start : Nat) (tr : List L) (s' : S)
+/-- a *periodic* persist that does not fall between a confirm rendez-vous and its `setOffset` stores exactly the
+end of the confirmed bytes (one that does fall there lags by that one event: `crash_resends_bounded`) -/
+theorem persist_outside_window_exact (c : Cfg) (start : Nat) (tr : List L) (s' : S)
     (hwin : isSetting (run c (init start) tr).pc = false)
     (hp : step c (run c (init start) tr) .persist = some s') :
     s'.persisted = s'.start + bytesOf s'.confirmed ∧ s'.confirmed <+: s'.readLog := by
@@ -133,12 +155,12 @@ theorem graceful_restart_exact_partial (c : Cfg) (start : Nat) (tr : List L) (s'
   simp only [hwin, confEnd] at this
   exact ⟨by simpa using this, h.pre⟩
 
-/-- **`cex_final_persist_race`** (finding F17) the consumer saw `Confirm() = true`, the context is cancelled, the
-final persist runs, and only then the worker reaches `setOffset`: the stored offset is the old one, so the
-confirmed record is sent again by the next session. -/
-theorem cex_final_persist_race : ¬ C17_graceful_full := by
+/-- **`cex_final_persist_before_workers`** (finding F17, fixed by c6aad9a — kept as the behaviour of the *old*
+order): with the final persist running as soon as the context is cancelled, `confirm, cancel, finalPersist,
+setOffset` stores the old offset, so the confirmed record is sent again by the next session. -/
+theorem cex_final_persist_before_workers : ¬ GracefulExact ⟨1, true, false⟩ := by
   intro h
-  have := h ⟨1, true⟩ 0 [.step, .next (.record [97, 10]), .step, .send, .confirm, .cancel] _ rfl
+  have := (h 0 [.step, .next (.record [97, 10]), .step, .send, .confirm, .cancel] _ rfl).1
   revert this
   decide
 
@@ -159,9 +181,6 @@ theorem crash_resends_bounded (c : Cfg) (start : Nat) (tr : List L) :
 
 /-! ## rotation -/
 
-/-- the worker configuration of the code as it is now: the position of the state sample is regenerated -/
-def codeCfg (recsPerEvent : Nat) : Cfg := ⟨recsPerEvent, Generated.C17.stateSampledBeforeNextRecord⟩
-
 /-- **`rotated_file_drained`** A worker that ended through the "EOF reached" rule has seen, *after* it was told to
 run until EOF, a `NextRecord` that found the file exhausted (so whatever was appended before that read was
 shipped or is in the batch being confirmed). For every interleaving. -/
@@ -176,33 +195,57 @@ theorem rotated_file_drained (k start : Nat) (tr : List L) :
 /-- **`cex_stale_eof`** (finding F36, fixed by 91d80cf — kept as the behaviour of the *old* loop): with the state
 read in the stop test after the sleep, `EOF, (file grows), stopOnEOF, wake` stops the worker on the stale EOF. -/
 theorem cex_stale_eof :
-    let s := run ⟨1, false⟩ (init 0) [.step, .next .eof, .step, .stopOnEOF, .wake, .step]
+    let s := run ⟨1, false, true⟩ (init 0) [.step, .next .eof, .step, .stopOnEOF, .wake, .step]
     s.stoppedByEof = true ∧ s.eofSeen = false := by decide
 
-/-- **`rotation_new_id_from_zero`** a file whose id is not known is taken with the scanned descriptor (offset 0);
-the same id with sizes not shrunk keeps the old offset; the same id with a smaller size (truncated) restarts. -/
-theorem rotation_new_id_from_zero (old new : List Desc) (nd : Desc) (h : nd ∈ new) (hid : lookup old nd.id = none) :
-    (nd, false) ∈ mergeDescs old new := by
-  simp only [mergeDescs, List.mem_map]
-  exact ⟨nd, h, by simp [hid, mergeOne]⟩
+/-- `mergeDescs` as the code does it now: whether it stats again is regenerated -/
+def codeMerge := mergeDescs Generated.C17.mergeRestatsAfterOffset
+def codeMergeOne := mergeOne Generated.C17.mergeRestatsAfterOffset
 
-theorem same_id_grown_keeps_offset (od nd : Desc) (h1 : od.lastSeenSize ≤ nd.lastSeenSize)
-    (h2 : od.offset ≤ nd.lastSeenSize) :
-    mergeOne (some od) nd = ({ od with lastSeenSize := nd.lastSeenSize }, true) := by
-  simp [mergeOne, h1, h2]
+/-- **`rotation_new_id_from_zero`** a file whose id is not known is taken with the scanned descriptor (offset 0). -/
+theorem rotation_new_id_from_zero (old : List Desc) (new : List (Desc × Option Nat)) (nd : Desc) (rs : Option Nat)
+    (h : (nd, rs) ∈ new) (hid : lookup old nd.id = none) : (nd, false) ∈ codeMerge old new := by
+  simp only [codeMerge, mergeDescs, List.mem_map]
+  exact ⟨(nd, rs), h, by simp [hid, mergeOne]⟩
 
-theorem same_id_shrunk_restarts (od nd : Desc) (h : nd.lastSeenSize < od.lastSeenSize ∨ nd.lastSeenSize < od.offset) :
-    mergeOne (some od) nd = (nd, false) := by
-  have : ¬ (od.lastSeenSize ≤ nd.lastSeenSize ∧ od.offset ≤ nd.lastSeenSize) := by omega
-  simp [mergeOne, this]
+/-- **`same_id_grown_keeps_offset`** (the code as it is now, fix f247e22). A file that only grows — the scanned size
+is at least the size seen last time, a later stat gives at least the scanned size — and whose worker offset, as
+every offset, is at most the file's size at the moment it is read, hence at most what a *later* stat answers
+(`hoff`; no relation between the offset and the *scanned* size is assumed): the old descriptor, i.e. its offset,
+is kept. `restat` is what the second `os.Stat` answers; it is only consulted when the offset is beyond the scanned
+size, and must then succeed (`hre`). -/
+theorem same_id_grown_keeps_offset (od nd : Desc) (restat : Option Nat) (later : Nat)
+    (hgrow1 : od.lastSeenSize ≤ nd.lastSeenSize) (hgrow2 : nd.lastSeenSize ≤ later) (hoff : od.offset ≤ later)
+    (hre : nd.lastSeenSize < od.offset → restat = some later) :
+    (codeMergeOne (some od) nd restat).2 = true ∧ (codeMergeOne (some od) nd restat).1.offset = od.offset := by
+  have hfact : Generated.C17.mergeRestatsAfterOffset = true := by decide
+  simp only [codeMergeOne, hfact, mergeOne, effSize, Bool.true_and]
+  by_cases hlt : nd.lastSeenSize < od.offset
+  · simp only [hlt, decide_true, if_true, hre hlt, Option.getD_some]
+    have : od.lastSeenSize ≤ later ∧ od.offset ≤ later := ⟨by omega, hoff⟩
+    simp [this]
+  · simp only [hlt, decide_false, Bool.false_eq_true, if_false]
+    have : od.lastSeenSize ≤ nd.lastSeenSize ∧ od.offset ≤ nd.lastSeenSize := ⟨hgrow1, by omega⟩
+    simp [this]
 
-/-- **`cex_stale_size_resend`** (finding F17b) `sync` reads the file size (`scanPaths`) *before* `mergeDescs` reads the
-worker's live offset. A file that only grows — 17 bytes at the stat, 31 bytes shipped and confirmed by the time
-of the merge — violates `od.offset ≤ nd.lastSeenSize`, the scanned descriptor (offset 0) replaces the old one and
-the file is sent again from its beginning. `same_id_grown_keeps_offset` is the partial statement (its hypothesis
-`od.offset ≤ nd.lastSeenSize` is what a consistent snapshot would guarantee). -/
-theorem cex_stale_size_resend :
-    mergeOne (some ⟨[105, 100], 31, 17⟩) ⟨[105, 100], 0, 17⟩ = (⟨[105, 100], 0, 17⟩, false) := by decide
+/-- the same id with a size (the one the merge decides with) below what was seen or below the offset — a truncated
+file — restarts from the scanned descriptor (offset 0) -/
+theorem same_id_shrunk_restarts (od nd : Desc) (restat : Option Nat)
+    (h : effSize Generated.C17.mergeRestatsAfterOffset od nd restat < od.lastSeenSize ∨
+         effSize Generated.C17.mergeRestatsAfterOffset od nd restat < od.offset) :
+    (codeMergeOne (some od) nd restat).2 = false ∧ (codeMergeOne (some od) nd restat).1.offset = nd.offset := by
+  simp only [codeMergeOne, mergeOne]
+  have : ¬ (od.lastSeenSize ≤ effSize Generated.C17.mergeRestatsAfterOffset od nd restat ∧
+      od.offset ≤ effSize Generated.C17.mergeRestatsAfterOffset od nd restat) := by omega
+  simp [this]
+
+/-- **`cex_stale_size_resend_old`** (finding F17b, fixed by f247e22 — kept as the behaviour of the *old* merge,
+`restats = false`): 17 bytes at the scan's stat, 31 bytes shipped and confirmed by the time of the merge ⇒ the
+scanned descriptor (offset 0) replaces the old one and the file is sent again. With the second stat it is kept. -/
+theorem cex_stale_size_resend_old :
+    mergeOne false (some ⟨[105, 100], 31, 17⟩) ⟨[105, 100], 0, 17⟩ (some 31) = (⟨[105, 100], 0, 17⟩, false) ∧
+    mergeOne true (some ⟨[105, 100], 31, 17⟩) ⟨[105, 100], 0, 17⟩ (some 31) = (⟨[105, 100], 31, 31⟩, true) := by
+  decide
 
 /-! ### non-vacuity: concrete, non-trivial instances -/
 
@@ -221,14 +264,25 @@ example : (readLines 2 1 { pieces := [.data [1], .eof, .data [2], .eof, .data [3
 
 /-- a full batch is sent, confirmed, the offset set, persisted: offset 2 = end of the confirmed record -/
 example :
-    let s := run ⟨1, true⟩ (init 0) [.step, .next (.record [97, 10]), .step, .send, .confirm, .setOffset, .persist]
+    let s := run ⟨1, true, true⟩ (init 0) [.step, .next (.record [97, 10]), .step, .send, .confirm, .setOffset, .persist]
     s.persisted = 2 ∧ s.confirmed = [[97, 10]] ∧ isSetting s.pc = false := by decide
 
 /-- the fixed loop on the stale-EOF schedule keeps running (it goes back to the loop head) -/
-example : (run ⟨1, true⟩ (init 0) [.step, .next .eof, .step, .stopOnEOF, .wake, .step]).pc = .top := by decide
+example : (run ⟨1, true, true⟩ (init 0) [.step, .next .eof, .step, .stopOnEOF, .wake, .step]).pc = .top := by decide
+
+/-- the hypothesis of `graceful_restart_exact` is met: after a cancel in the rendez-vous window the final persist is
+not enabled before `setOffset` and the end of the loop, and then stores 2 = the confirmed end -/
+example :
+    step (codeCfg 1) (run (codeCfg 1) (init 0) [.step, .next (.record [97, 10]), .step, .send, .confirm, .cancel])
+      .finalPersist = none ∧
+    ((step (codeCfg 1) (run (codeCfg 1) (init 0) [.step, .next (.record [97, 10]), .step, .send, .confirm, .cancel,
+      .setOffset, .step, .step]) .finalPersist).map (·.persisted)) = some 2 := by decide
 
 /-- same path and inode, new content at least as long as the old offset: the old offset is kept (the id cannot
 tell; OS behaviour, outside the property's claim) -/
-example : mergeOne (some ⟨[1], 10, 10⟩) ⟨[1], 0, 25⟩ = (⟨[1], 10, 25⟩, true) := by decide
+example : mergeOne true (some ⟨[1], 10, 10⟩) ⟨[1], 0, 25⟩ none = (⟨[1], 10, 25⟩, true) := by decide
+
+/-- if the second stat fails (`none`) the merge falls back to the scanned size -/
+example : mergeOne true (some ⟨[1], 31, 17⟩) ⟨[1], 0, 17⟩ none = (⟨[1], 0, 17⟩, false) := by decide
 
 end Logrange.Props.C17
